@@ -495,11 +495,16 @@ theorem perVertexType_property_eq {doc : Doc} {s : Schema} (h : AcceptedFacts do
   · intro f _
     simp [leaf, outputs, resolveProperty, asProperty, Outcome.bind]
 
-/-- With a statically known `name`, `vertex_type_iter` looks the type up instead of scanning all
-types; the rows are those of the scan followed by the engine's own filter. -/
-theorem introspect_byName_eq {doc : Doc} {s : Schema} (h : AcceptedFacts doc s) (n : Name) :
-    introspect s (.byName n) =
-      .ok (((listed doc s.queryType.name).filter (fun t => t.name == n)).flatMap propertyRowsNoDocs) := by
+theorem filterMap_eq_flatMap_toList {α β : Type} (f : α → Option β) (l : List α) :
+    l.filterMap f = l.flatMap (fun a => (f a).toList) := by
+  induction l with
+  | nil => rfl
+  | cons a as ih => cases h : f a <;> simp [List.filterMap_cons, List.flatMap_cons, h, ih]
+
+/-- The vertex the `name` candidate `n` yields: the listed type of that name, if any. -/
+theorem candidate_toList {doc : Doc} {s : Schema} (h : AcceptedFacts doc s) (n : Name) :
+    (candidateVertex s n).toList =
+      ((listed doc s.queryType.name).filter (fun t => t.name == n)).map Vertex.vertexType := by
   have hlisted : (listed doc s.queryType.name).filter (fun t => t.name == n) =
       ((findType doc.types n).toList).filter (fun t => t.name != s.queryType.name) := by
     unfold listed
@@ -508,18 +513,58 @@ theorem introspect_byName_eq {doc : Doc} {s : Schema} (h : AcceptedFacts doc s) 
     intro x _
     exact Bool.and_comm _ _
   rw [hlisted]
+  unfold candidateVertex
+  rw [h.vertexTypes]
+  cases findType doc.types n with
+  | none => rfl
+  | some d => by_cases hr : (d.name != s.queryType.name) = true <;> simp [hr]
+
+/-- With a `one_of` list of names, `vertex_type_iter` yields one vertex per *element* of the list
+(a name occurring twice yields its vertex type twice), and the engine's filter keeps them all. -/
+theorem introspect_oneOf_eq {doc : Doc} {s : Schema} (h : AcceptedFacts doc s) (ns : List Name) :
+    introspect s (.oneOf ns) =
+      .ok ((ns.flatMap fun n => (listed doc s.queryType.name).filter (fun t => t.name == n)).flatMap
+        propertyRowsNoDocs) := by
   unfold introspect
   simp only [startingVertices, String.reduceBEq, Bool.false_eq_true, if_false, if_true, Outcome.bind,
-    vertexTypeIter, h.vertexTypes]
-  cases hft : findType doc.types n with
-  | none => simp [Outcome.collect]
-  | some d =>
-    have hd := findType_some hft
-    have hdn := hd.2
-    subst hdn
-    by_cases hr : d.name = s.queryType.name
-    · simp [hr, Outcome.collect]
-    · simp [hr, Outcome.collect, nameIs, perVertexType_property_eq h hd.1]
+    vertexTypeIter]
+  rw [filterMap_eq_flatMap_toList]
+  simp only [candidate_toList h]
+  rw [← List.map_flatMap]
+  have hfilter : ((ns.flatMap fun n => (listed doc s.queryType.name).filter (fun t => t.name == n)).map
+      Vertex.vertexType).filter (nameIn ns) =
+      (ns.flatMap fun n => (listed doc s.queryType.name).filter (fun t => t.name == n)).map Vertex.vertexType := by
+    rw [List.filter_eq_self]
+    intro v hv
+    obtain ⟨t, ht, rfl⟩ := List.mem_map.mp hv
+    obtain ⟨n, hn, htn⟩ := List.mem_flatMap.mp ht
+    have : t.name = n := by simpa using (List.mem_filter.mp htn).2
+    simp [nameIn, this, hn]
+  rw [hfilter, collect_map]
+  apply collect_ok_of_forall
+  intro t ht
+  obtain ⟨n, _, htn⟩ := List.mem_flatMap.mp ht
+  exact perVertexType_property_eq h (listed_mem (List.mem_filter.mp htn).1)
 
+/-- With a statically known `name`, `vertex_type_iter` looks the type up instead of scanning all
+types; the rows are those of the scan followed by the engine's own filter. -/
+theorem introspect_byName_eq {doc : Doc} {s : Schema} (h : AcceptedFacts doc s) (n : Name) :
+    introspect s (.byName n) =
+      .ok (((listed doc s.queryType.name).filter (fun t => t.name == n)).flatMap propertyRowsNoDocs) := by
+  unfold introspect
+  simp only [startingVertices, String.reduceBEq, Bool.false_eq_true, if_false, if_true, Outcome.bind,
+    vertexTypeIter, candidate_toList h]
+  have hfilter : (((listed doc s.queryType.name).filter (fun t => t.name == n)).map
+      Vertex.vertexType).filter (nameIs n) =
+      ((listed doc s.queryType.name).filter (fun t => t.name == n)).map Vertex.vertexType := by
+    rw [List.filter_eq_self]
+    intro v hv
+    obtain ⟨t, ht, rfl⟩ := List.mem_map.mp hv
+    have : t.name = n := by simpa using (List.mem_filter.mp ht).2
+    simp [nameIs, this]
+  rw [hfilter, collect_map]
+  apply collect_ok_of_forall
+  intro t ht
+  exact perVertexType_property_eq h (listed_mem (List.mem_filter.mp ht).1)
 
 end TF.SchemaDoc
